@@ -483,6 +483,10 @@ func vpH_c07_merge_seq() {
 	for i := 0; i < n; i++ {
 		seq.Content = append(seq.Content, vpAlias(src[vpInt(0, 2)]))
 	}
+	if vpBool() { // the sequence of sources is itself anchored and lists itself: a merge cycle without a mapping in it
+		seq.Anchor = "q"
+		seq.Content = append(seq.Content, vpAlias(seq))
+	}
 	root := vpMapping()
 	if vpBool() { // the sources were already merged once by an earlier merge key
 		root.Content = append(root.Content, vpMergeKey(), vpAlias(src[vpInt(0, 2)]))
